@@ -159,6 +159,22 @@ func (w *World) finish(prop string, verifDir string, seed int, wall float64, ext
 			obs = append(obs, o)
 		}
 	}
+	// a stable order of the report, whatever order the rules discovered their instances in
+	ruleOrder := map[string]int{}
+	for _, o := range obs {
+		if _, seen := ruleOrder[o.Rule]; !seen {
+			ruleOrder[o.Rule] = len(ruleOrder)
+		}
+	}
+	sort.SliceStable(obs, func(i, j int) bool {
+		if obs[i].Rule != obs[j].Rule {
+			return ruleOrder[obs[i].Rule] < ruleOrder[obs[j].Rule] // the rules in the order they ran
+		}
+		if obs[i].Construct != obs[j].Construct {
+			return obs[i].Construct < obs[j].Construct
+		}
+		return obs[i].Pos < obs[j].Pos
+	})
 	// known findings
 	exit := 0
 	nViol := 0
